@@ -410,6 +410,11 @@ class NumpyConverter(object):
             self.xlines = np.arange(data_array.shape[1]) if xlines is None else xlines
 
         self.samples = 4*np.arange(data_array.shape[2]) if samples is None else samples   # Default 4ms sampling
+
+        # Axes may be any array-like; line numbers are signed (an unsigned dtype wraps on a descending axis)
+        self.ilines = np.asarray(self.ilines).astype(np.int64)
+        self.xlines = np.asarray(self.xlines).astype(np.int64)
+        self.samples = np.asarray(self.samples)
         self.trace_headers = collections.OrderedDict(sorted(trace_headers.items()))
 
         shape = (len(self.ilines), len(self.xlines))
